@@ -21,7 +21,8 @@ IsMissingOut(o) == o.k = "err" /\ o.cls \in {"MissingNode", "MissingChild"}
 (* response from an unknown node must still be refused identically.                                      *)
 HeartbeatException(ev, x, y, older, newer) ==
     /\ ev.k = "recv" /\ ev.cmd = C_INTERNAL /\ ev.t = I_HEARTBEAT_RESPONSE /\ newer = "2.2" /\ older # "2.2"
-    /\ ~IsMissingOut(x.out) /\ ~IsMissingOut(y.out)      \* the node is known: the sleeping flag may differ from here on
+    /\ x.out.k = "yield" /\ y.out.k = "yield"           \* handled on both sides (known node, usable payload):
+                                                          \* the sleeping flag may differ from here on
 
 A(i) == Runs[rid].a[i]
 B(i) == Runs[rid].b[i]
@@ -30,12 +31,22 @@ Newer == Runs[rid].newer
 
 Agree(x, y) == /\ x.out = y.out /\ x.wr = y.wr /\ x.post.nodes = y.post.nodes
 
+(* the two sides of the exception themselves: under 2.0 / 2.1 the heartbeat response marks the node as    *)
+(* sleeping; under 2.2 it does not change any sleeping flag and releases no set command                   *)
+ToSet(q) == {q[i] : i \in 1..Len(q)}
+SleepFlags(nodes) == {<<pr[1], pr[2].sl>> : pr \in ToSet(nodes)}
+ExceptionSidesOK(x, y, newer) ==
+    /\ <<x.n, TRUE>> \in SleepFlags(x.post.nodes)
+    /\ (newer = "2.2") => /\ SleepFlags(y.post.nodes) = SleepFlags(y.pre.nodes)
+                          /\ \A i \in 1..Len(y.wr) : y.wr[i].cmd # C_SET
+
 TStep ==
     /\ l <= Len(Runs[rid].a)
     /\ InScope(A(l), Older, Newer)                      \* the generator only produces in-scope events
     /\ IF \/ Major(Older) # Major(Newer) /\ (IsMissingOut(A(l).out) \/ IsMissingOut(B(l).out))
           \/ HeartbeatException(A(l), A(l), B(l), Older, Newer)
-       THEN l' = Len(Runs[rid].a) + 1                   \* an unknown reference ends the comparable part
+       THEN /\ l' = Len(Runs[rid].a) + 1              \* an unknown reference ends the comparable part
+            /\ HeartbeatException(A(l), A(l), B(l), Older, Newer) => ExceptionSidesOK(A(l), B(l), Newer)
        ELSE (Agree(A(l), B(l)) /\ l' = l + 1)
     /\ rid' = rid
 TInit == rid \in 1..Len(Runs) /\ l = 1
